@@ -23,7 +23,7 @@ type pourRec struct {
 
 func faucetGlobal(ls []world.Leaf) *faucetsc.GlobalNode {
 	gn := &faucetsc.GlobalNode{}
-	b := leafByKey(ls, faucetsc.VerifGlobalKey())
+	b := leafByKey(ls, faucetsc.VerifMiscGlobalKey())
 	if b == nil {
 		ev.Fatal("faucet global node absent")
 	}
@@ -70,7 +70,7 @@ func faucetMonitor() chainsim.Monitor {
 			return
 		}
 		gn0, gn1 := faucetGlobal(s.Pre.Leaves), faucetGlobal(s.Post.Leaves)
-		if err := gn0.VerifValidate(); err != nil {
+		if err := gn0.VerifMiscValidate(); err != nil {
 			ev.Fatal("scenario uses an invalid faucet configuration: %v", err)
 		}
 		now := common.ToTime(s.Txn.CreationDate)
